@@ -96,8 +96,12 @@ def opaque(t):
 
 
 def _foreign_list(src_t):
-    """the iterated list is (possibly) a parameter or the unresolved result of a call: not one of the node's own lists"""
+    """the iterated list is (possibly) a parameter or the unresolved result of a call: not one of the node's own lists
+    (for a conditional between lists: one of the alternatives is - the condition itself does not matter)"""
+    if src_t[0] == "ite":
+        return _foreign_list(src_t[2]) or _foreign_list(src_t[3])
     return mentions(src_t, lambda x: (x[0] == "v" and x[1] != "self") or x[0] == "apply"
+                    or (x[0] == "attr" and x[1] == ("v", "self") and x[2] != "next_states")          # a memo kept on the node: what it holds is not known here
                     or (x[0] == "mcall" and not (x[2] in ("items", "values", "keys") and x[1][0] in ("compr", "dict")))   # a view of a dictionary built here is the node's own doing
                     or (x[0] == "call" and x[1] not in KNOWN_PURE))
 
